@@ -29,7 +29,7 @@ ASSUMPTIONS = ['receptive-field / dilation parameters are driven only on Conv1d 
 
 
 def bounds(tier):
-    return {'quick': {'K_kmax': 12, 'G_depth': 2, 'uniform_value_combos': '343 (K) / 64 (G)', 'abstract_deviation_bound': 1, 'representatives': 4},
+    return {'quick': {'K_kmax': 12, 'G_depth': 2, 'uniform_value_combos': '343 (K with k <= 4 or k = 12) / 64 (other K, G)', 'abstract_deviation_bound': 1, 'representatives': 4},
             'thorough': {'K_kmax': 12, 'G_depth': 3, 'uniform_value_combos': 343, 'abstract_deviation_bound': 2, 'representatives': 4}}[tier]
 
 
@@ -41,6 +41,8 @@ def cases(tier, seed):
                 for bn in (False, True):
                     for pad in ('causal', 'same'):
                         if pad == 'same' and (s == 2 or (tier == 'quick' and d == 2)):
+                            continue
+                        if tier == 'quick' and d == 2 and k not in (2, 3, 4, 8):
                             continue
                         if tier == 'quick' and bn and k not in (1, 2, 4, 7, 12):
                             continue
@@ -149,7 +151,8 @@ def run_case(case, seed):
 
     only = case.get('only')
     # (a) uniform raw values
-    reps = REPS if prog.get('family') == 'K' or tier == 'thorough' else REPS_SMALL
+    kk = prog['stages'][-1].get('k', 3) if prog.get('family') == 'K' else None
+    reps = REPS if tier == 'thorough' or (kk is not None and (kk <= 4 or kk == 12)) else REPS_SMALL
     combos = itertools.product(reps, reps if tms else [None], reps if tms else [None])
     for va, vb, vg in combos:
         label = {'uniform': [va, vb, vg]}
